@@ -29,7 +29,13 @@ Definition lookup (l : labels) (n : N) : option N :=
   option_map snd (find (fun kv => N.eqb (fst kv) n) l).
 
 Definition ldel (l : labels) (n : N) : labels := filter (fun kv => negb (N.eqb (fst kv) n)) l.
-Definition lset (l : labels) (n v : N) : labels := ldel l n ++ [(n, v)].
+(* labels.Builder.Set followed by Labels(): the label takes its place in the order of names *)
+Fixpoint linsert (n v : N) (l : labels) : labels :=
+  match l with
+  | [] => [(n, v)]
+  | (k, x) :: r => if N.ltb n k then (n, v) :: l else (k, x) :: linsert n v r
+  end.
+Definition lset (l : labels) (n v : N) : labels := linsert n v (ldel l n).
 
 (* signature(): the labels a series keeps in the join table.
    keep_labels = the matching is not one-to-one; keep_name = the operator keeps the metric name *)
